@@ -130,6 +130,15 @@ def wc_signature(rec, verdict, step=None):
                             and pre["disk"][PATHS.index(p[:k])]["t"] in ("out", "out/x") for k in range(1, len(p))):
                 return "SnapshotOK:tracked-path-read-through-symlinked-directory"
         return verdict
+    if verdict == "SnapshotOutsideSparse" and step is not None:
+        # F9: a tree file outside the patterns evicted by a newly tracked file below it
+        pre, post = _pre(rec, step), rec["obs"][step]
+        for n, p in enumerate(PATHS):
+            if not _match(pre["sparse"], p) and pre["tree"][n]["k"] != "absent" and post["tree"][n]["k"] == "absent" \
+                    and any(len(q) > len(p) and q[:len(p)] == p and _match(pre["sparse"], q) and post["tree"][m]["k"] != "absent"
+                            and pre["disk"][m]["k"] in ("file", "symlink") for m, q in enumerate(PATHS)):
+                return "SnapshotOutsideSparse:tree-file-above-in-pattern-path"
+        return verdict
     if verdict == "Error:Snapshot":
         # F7: a tracked path below something that is no longer a directory (ENOTDIR in
         # visit_tracked_files, inside a directory ignored as a whole)
